@@ -22,7 +22,7 @@ type program struct {
 
 var ctors = []string{"NewMessageWriter", "NewMessageWriterBuffer", "NewWriter(explicit)", "NewListWriter", "NewValueWriterBuffer"}
 var bodies = []string{"complete", "nested", "fail-midway", "abandon-open", "big-60-fields", "copy"}
-var endings = []string{"Build", "Build+Free", "none", "Build+Unwrap.Free"}
+var endings = []string{"Build", "Build+Free", "none", "Build+Unwrap.Free", "Build+Reset+Build"}
 
 func (p program) String() string {
 	return fmt.Sprintf("%s/%s/%s", ctors[p.ctor], bodies[p.body], endings[p.ending])
@@ -41,6 +41,9 @@ func allPrograms() []program {
 				}
 				if e == 3 && !(b == 0 || b == 2) {
 					continue
+				}
+				if e == 4 && !(c == 2 && b == 0) {
+					continue // an explicitly owned writer is reused with Reset after its Build
 				}
 				if c >= 3 && (b == 4 || b == 5) {
 					continue // message-only bodies
@@ -193,6 +196,21 @@ func (p program) run(step func()) (out []byte, failed bool) {
 	if p.ending == 1 && explicit != nil {
 		explicit.Free()
 	}
+	if p.ending == 4 && explicit != nil && err == nil {
+		// the owner keeps its writer: Reset and build the same message once more
+		step()
+		explicit.Reset(buf)
+		m2 := explicit.Message()
+		note(m2.Field(1).Bool(true))
+		step()
+		note(m2.Field(2).String("s"))
+		b2, e2 := m2.Build()
+		note(e2)
+		if err == nil && fmt.Sprintf("%x", b2) != fmt.Sprintf("%x", b) {
+			err = fmt.Errorf("second build after Reset differs: %x vs %x", b2, b)
+		}
+		explicit.Free()
+	}
 	if p.ending == 3 && unwrapped != nil {
 		unwrapped.Free() // "Free is always safe": the writer was auto-released by Build a moment ago
 	}
@@ -234,7 +252,7 @@ func init() {
 			}
 			return out
 		},
-		Doc: fmt.Sprintf("all ordered pairs (P1,P2) of %d writer programs (constructor x body x ending; bodies include failing midway, abandoning an open container, growing the field table beyond its preallocation, Copy; endings Build / Build+Free / never released / Build then Free through the unwrapped pooled writer) run back to back on the LIFO pools: P2's result must equal P2 run alone, also as third program after P1,P1", n),
+		Doc: fmt.Sprintf("all ordered pairs (P1,P2) of %d writer programs (constructor x body x ending; bodies include failing midway, abandoning an open container, growing the field table beyond its preallocation, Copy; endings Build / Build+Free / never released / Build then Free through the unwrapped pooled writer / owned writer reused with Reset after Build) run back to back on the LIFO pools: P2's result must equal P2 run alone, also as third program after P1,P1", n),
 		Body: func(x *vexp.Ctx) {
 			a := x.P("a", 0)
 			for _, p := range progs {
@@ -277,34 +295,43 @@ func init() {
 			}
 			// after a program that frees a pooled writer once more after its Build (sequentially harmless: nobody
 			// else owns it yet), two LATER programs are interleaved on one thread: each must get its own writer
-			if lateFree(p1) {
+			{
 				for _, p2 := range progs {
 					for _, p3 := range progs {
-						if p2.ctor == 2 || p3.ctor == 2 || lateFree(p2) || lateFree(p3) || p2.body > 2 || p3.body > 2 {
+						reuse := p2.ending == 4 // an owned writer reused with Reset: every p1 may have left it a dirty state
+						if !reuse && !lateFree(p1) {
 							continue
 						}
-						p1.run(func() {})
-						var b2, b3 []byte
-						var f2, f3 bool
-						var pn any
-						func() {
-							defer func() { pn = recover() }()
-							k := 0
-							b2, f2 = p2.run(func() {
-								k++
-								if k == 2 {
-									b3, f3 = p3.run(func() {})
-								}
-							})
-						}()
-						if pn != nil {
-							x.Fail("writer program panics after another program used the pools", "P1=%s then P2=%s interleaved with P3=%s: %v", p1, p2, p3, pn)
-							bad++
+						if (!reuse && p2.ctor == 2) || p3.ctor == 2 || lateFree(p2) || lateFree(p3) || p2.body > 2 || p3.body > 2 || p3.ending != 0 {
 							continue
 						}
-						if g2, g3 := result(b2, f2), result(b3, f3); g2 != expected[p2] || g3 != expected[p3] {
-							x.Fail("two later programs share one pooled writer (released twice by an earlier program)", "P1=%s then P2=%s interleaved with P3=%s: got %s / %s want %s / %s", p1, p2, p3, clip(g2), clip(g3), clip(expected[p2]), clip(expected[p3]))
-							bad++
+						for at := 1; at <= 6; at++ {
+							if !reuse && at != 2 {
+								continue
+							}
+							p1.run(func() {})
+							var b2, b3 []byte
+							var f2, f3 bool
+							var pn any
+							func() {
+								defer func() { pn = recover() }()
+								k := 0
+								b2, f2 = p2.run(func() {
+									k++
+									if k == at {
+										b3, f3 = p3.run(func() {})
+									}
+								})
+							}()
+							if pn != nil {
+								x.Fail("writer program panics after another program used the pools", "P1=%s then P2=%s interleaved with P3=%s: %v", p1, p2, p3, pn)
+								bad++
+								continue
+							}
+							if g2, g3 := result(b2, f2), result(b3, f3); g2 != expected[p2] || g3 != expected[p3] {
+								x.Fail("two later programs share one pooled writer (released twice by an earlier program)", "P1=%s then P2=%s interleaved (step %d) with P3=%s: got %s / %s want %s / %s", p1, p2, at, p3, clip(g2), clip(g3), clip(expected[p2]), clip(expected[p3]))
+								bad++
+							}
 						}
 					}
 				}
